@@ -8,6 +8,7 @@ of its feasible values under the path condition (forking), so each path has
 concrete control over addresses while data stays symbolic.
 """
 import bisect
+import os
 import time
 import sys
 
@@ -151,6 +152,8 @@ class State(object):
         s.sync_vc = {}       # sync object address -> vector clock released there
         s.shadow = {}        # (base, off) -> [write (tid, clk) | None, {tid: clk} reads]
         s.sched_log = []
+        s.last_sync = None    # (kind L|U|W|S, tid, per-thread count of that kind) of the latest synchronisation point
+        s.sync_cnt = {}
 
     def fork(s):
         n = State.__new__(State)
@@ -193,6 +196,8 @@ class State(object):
         n.sync_vc = {k: dict(v) for k, v in s.sync_vc.items()}
         n.shadow = {k: [v[0], dict(v[1])] for k, v in s.shadow.items()} if s.shadow else {}
         n.sched_log = list(s.sched_log)
+        n.last_sync = s.last_sync
+        n.sync_cnt = dict(s.sync_cnt)
         return n
 
     # ---- objects
@@ -370,6 +375,8 @@ class Executor(object):
         s.solver = Solver(timeout_ms)
         s.models = {}
         s.max_steps = max_steps
+        s.max_rss_mb = int(os.environ.get('VERIF_MAX_RSS_MB', '3500'))
+        s.budget_tick = 0
         s.max_paths = max_paths
         s.enum_limit = enum_limit
         s.sched = sched
@@ -424,7 +431,19 @@ class Executor(object):
             st.add_obj(o)
         return st
 
+    def check_rss(s, pending):
+        """memory budget of one worker: a harness that a change to the library makes explode ends inconclusive
+        instead of taking the machine down"""
+        try:
+            rss = int(open('/proc/self/statm').read().split()[1]) * 4096 >> 20
+        except (OSError, ValueError, IndexError):
+            return
+        if rss > s.max_rss_mb:
+            raise Inconclusive('memory budget of %d MiB exhausted after %d paths (%d states pending)' % (
+                s.max_rss_mb, len(s.results), pending + 1))
+
     def run(s, entry, args=()):
+        s.entry_name = entry
         st = s.initial_state()
         if s.concolic_tape is not None:
             st.cmodel = {}
@@ -452,6 +471,9 @@ class Executor(object):
             if s.max_wall and time.time() - t_start > s.max_wall:
                 raise Inconclusive('wall-clock budget of %ds exhausted after %d paths (%d states pending)' % (
                     s.max_wall, len(s.results), len(work) + 1))
+            s.budget_tick += 1
+            if not (s.budget_tick & 0xff):
+                s.check_rss(len(work))
             try:
                 s.run_state(st, work)
             except PathEnd as pe:
@@ -480,12 +502,13 @@ class Executor(object):
             if status == 'limit' and s.limit_is_hang:
                 model = s.model_for(st)
                 s.violations.append(Violation('hang', 'no termination within %d executed instructions (%s)' % (
-                    s.max_steps, s.where(st).split(' <- ')[0]), model, st.inputs, s.where(st)))
+                    s.max_steps, s.where(st).split(' <- ')[0]), model, st.inputs, s.where(st),
+                    extra=dict(schedule=list(st.sched_log))))
                 return
             if status in ('limit', 'unsupported', 'enum_limit'):
                 return
             model = s.model_for(st)
-            s.violations.append(Violation(status, detail, model, st.inputs, s.where(st)))
+            s.violations.append(Violation(status, detail, model, st.inputs, s.where(st), extra=dict(schedule=list(st.sched_log))))
 
     def where(s, st):
         try:
@@ -520,7 +543,7 @@ class Executor(object):
                             o.preempts += 1
                             o.switch = True
                             o.force_next = t.tid
-                            o.sched_log.append((k, th.tid, t.tid))
+                            o.sched_log.append((k, th.tid, t.tid, st.last_sync))
                             work.append(o)
                             s.forks += 1
             if th.status != 'run' or not th.frames or st.switch:
@@ -539,6 +562,9 @@ class Executor(object):
                     fr.ip += 1
                 if st.steps > s.max_steps:
                     raise PathEnd('limit', 'step limit %d' % s.max_steps)
+                s.budget_tick += 1
+                if not (s.budget_tick & 0x3ff):
+                    s.check_rss(len(work))
             except ForkSignal as fs:
                 s.forks += len(fs.states) - 1
                 for o in fs.states[1:]:
@@ -673,6 +699,7 @@ class Executor(object):
         a = at[0]
         if st.cmodel is not None:
             v = X.evaluate(a, st.cmodel)
+            st.flags.setdefault('cflips', []).append((len(st.pc), X.ne(a, v, a.w)))
             st.pc.append(X.eq(a, v, a.w))
             st.sub[a] = v
             st.submemo = {}
@@ -762,6 +789,7 @@ class Executor(object):
             # concolic: follow the path of the concrete witness, keep the condition as a constraint
             d = X.evaluate(c, st.cmodel)
             k = c if d else X.lnot(c)
+            st.flags.setdefault('cflips', []).append((len(st.pc), X.lnot(k)))     # candidates for a generational flip
             st.pc.append(k)
             s.pin_eq(st, k)
             return bool(d), None
